@@ -157,6 +157,58 @@ func c16Streams(run *Run, rng *rand.Rand, id string, cases int) {
 		}
 		c.Acceptor.Close()
 		c.Dialer.Close()
+		// two streams interleaved: A's header is removed while part of A's payload has already arrived,
+		// then B's header is removed, and only then A and B are read to the end
+		if i%3 == 0 {
+			mk := func(lbl string, pay []byte) *Conn {
+				p := net.NewLoosePair("1.1.1.1:1", "2.2.2.2:2")
+				_, _ = p.Dialer.Write(append(append([]byte{244, byte(len(lbl))}, lbl...), pay...))
+				p.Dialer.CloseWrite()
+				return p
+			}
+			payA := append([]byte("AAAA-"), payload...)
+			payB := bytes.Repeat([]byte("B"), 8+len(payload))
+			lblB := "other-" + label
+			if len(lblB) > 255 {
+				lblB = lblB[:255]
+			}
+			pa, pb := mk(label, payA), mk(lblB, payB)
+			var gotA, gotB []byte
+			var la, lb string
+			var ea, eb error
+			if run.Guard(id, "C16/codec/stream-panic", map[string]any{"label_len": ll, "mode": "two-streams"}, func() {
+				ca, l1, e1 := memberlist.RemoveLabelHeaderFromStream(pa.Acceptor)
+				cb, l2, e2 := memberlist.RemoveLabelHeaderFromStream(pb.Acceptor)
+				la, ea, lb, eb = l1, e1, l2, e2
+				readAll := func(c interface{ Read([]byte) (int, error) }) (out []byte) {
+					buf := make([]byte, 1024)
+					for {
+						n, re := c.Read(buf)
+						out = append(out, buf[:n]...)
+						if re != nil {
+							return
+						}
+					}
+				}
+				if e1 == nil {
+					gotA = readAll(ca)
+				}
+				if e2 == nil {
+					gotB = readAll(cb)
+				}
+			}) {
+				return
+			}
+			run.Cell("stream-roundtrip", "two-streams-interleaved", fmt.Sprintf("labellen=%d", bucket(ll)))
+			if ea != nil || eb != nil || la != label || lb != lblB || !bytes.Equal(gotA, payA) || !bytes.Equal(gotB, payB) {
+				run.Violation(id, "C16/codec/stream-roundtrip/two-streams", fmt.Sprintf("two streams whose headers were removed before either was read: A err=%v label ok=%v payload ok=%v (%d/%d bytes), B err=%v label ok=%v payload ok=%v", ea, la == label, bytes.Equal(gotA, payA), len(gotA), len(payA), eb, lb == lblB, bytes.Equal(gotB, payB)), nil)
+				return
+			}
+			pa.Acceptor.Close()
+			pa.Dialer.Close()
+			pb.Acceptor.Close()
+			pb.Dialer.Close()
+		}
 		// truncated header: error, not a partial label
 		if i%4 == 0 {
 			cut := 1 + rng.Intn(1+ll)
